@@ -334,4 +334,168 @@ theorem didToURL_origin (dec : List Nat) (d : DID) (u : URL) (h : didToURL dec d
               · exact hu
               · exfalso; rw [hhost'] at hlt; omega
 
+/-! ### strings.Cut / Split / Join / LastIndex -/
+
+theorem cut_notin (c : Nat) : ∀ s : Bytes, c ∉ s → cut c s = (s, none)
+  | [], _ => by simp [cut]
+  | x :: xs, h => by
+    simp only [List.mem_cons, not_or] at h
+    simp [cut, Ne.symm h.1, cut_notin c xs h.2]
+
+theorem cut_append (c : Nat) : ∀ (a b : Bytes), c ∉ a → cut c (a ++ c :: b) = (a, some b)
+  | [], b, _ => by simp [cut]
+  | x :: xs, b, h => by
+    simp only [List.mem_cons, not_or] at h
+    simp [cut, Ne.symm h.1, cut_append c xs b h.2]
+
+theorem splitOn_notin (c : Nat) : ∀ s : Bytes, c ∉ s → splitOn c s = [s]
+  | [], _ => by simp [splitOn]
+  | x :: xs, h => by
+    simp only [List.mem_cons, not_or] at h
+    simp [splitOn, Ne.symm h.1, splitOn_notin c xs h.2]
+
+theorem splitOn_append (c : Nat) : ∀ (a b : Bytes), c ∉ a → splitOn c (a ++ c :: b) = a :: splitOn c b
+  | [], b, _ => by simp [splitOn]
+  | x :: xs, b, h => by
+    simp only [List.mem_cons, not_or] at h
+    simp [splitOn, Ne.symm h.1, splitOn_append c xs b h.2]
+
+theorem splitOn_ne_nil (c : Nat) : ∀ s : Bytes, splitOn c s ≠ []
+  | [] => by simp [splitOn]
+  | x :: xs => by
+    unfold splitOn
+    split
+    · simp
+    · split <;> simp
+
+theorem joinWith_cons_cons (c : Nat) (p q : Bytes) (ps : List Bytes) :
+    joinWith c (p :: q :: ps) = p ++ c :: joinWith c (q :: ps) := by simp [joinWith]
+
+theorem join_splitOn (c : Nat) : ∀ s : Bytes, joinWith c (splitOn c s) = s
+  | [] => by simp [splitOn, joinWith]
+  | x :: xs => by
+    have ih := join_splitOn c xs
+    unfold splitOn
+    split
+    · rename_i hx
+      cases hs : splitOn c xs with
+      | nil => exact absurd hs (splitOn_ne_nil c xs)
+      | cons p ps => rw [hs] at ih; simp [joinWith_cons_cons, ih, hx]
+    · split
+      · rename_i hs; exact absurd hs (splitOn_ne_nil c xs)
+      · rename_i p ps hs
+        rw [hs] at ih
+        cases ps with
+        | nil => simp [joinWith] at ih ⊢; exact ih
+        | cons q qs => simp [joinWith_cons_cons] at ih ⊢; exact ih
+
+theorem splitOn_parts_notin (c : Nat) : ∀ s : Bytes, ∀ p ∈ splitOn c s, c ∉ p
+  | [] => by simp [splitOn]
+  | x :: xs => by
+    have ih := splitOn_parts_notin c xs
+    unfold splitOn
+    split
+    · intro p hp; simp at hp; rcases hp with rfl | hp
+      · simp
+      · exact ih p hp
+    · rename_i hx
+      split
+      · intro p hp; simp at hp; subst hp; simp [Ne.symm hx]
+      · rename_i q qs hs
+        rw [hs] at ih
+        intro p hp; simp at hp; rcases hp with rfl | hp
+        · simp only [List.mem_cons, not_or]; exact ⟨fun e => hx e.symm, ih q (by simp)⟩
+        · exact ih p (by simp [hp])
+
+theorem afterLast_notin (c : Nat) : ∀ s : Bytes, c ∉ s → afterLast c s = none
+  | [], _ => by simp [afterLast]
+  | x :: xs, h => by
+    simp only [List.mem_cons, not_or] at h
+    simp [afterLast, afterLast_notin c xs h.2, Ne.symm h.1]
+
+theorem afterLast_append (c : Nat) : ∀ (a b : Bytes), c ∉ b → afterLast c (a ++ c :: b) = some b
+  | [], b, h => by simp [afterLast, afterLast_notin c b h]
+  | x :: xs, b, h => by simp [afterLast, afterLast_append c xs b h]
+
+theorem beforeLast_append (c : Nat) : ∀ (a b : Bytes), c ∉ a → c ∉ b → beforeLast c (a ++ c :: b) = a
+  | [], b, _, h => by simp [beforeLast, afterLast_notin c b h]
+  | x :: xs, b, ha, h => by
+    simp only [List.mem_cons, not_or] at ha
+    simp [beforeLast, afterLast_append c xs b h, beforeLast_append c xs b ha.2 h]
+
+theorem hasDouble_append_notin (c : Nat) : ∀ (a b : Bytes), c ∉ a → hasDouble c (a ++ b) = hasDouble c b
+  | [], b, _ => by simp
+  | [x], b, h => by
+    simp only [List.mem_cons, List.mem_nil_iff, or_false] at h
+    cases b with
+    | nil => simp [hasDouble]
+    | cons y ys => simp [hasDouble, Ne.symm h]
+  | x :: y :: rest, b, h => by
+    simp only [List.mem_cons, not_or] at h
+    have ih := hasDouble_append_notin c (y :: rest) b (by simp only [List.mem_cons, not_or]; exact h.2)
+    simp only [List.cons_append] at ih ⊢
+    simp [hasDouble, Ne.symm h.1, ih]
+
+/-! ### the 14 reserved characters; strings without percent signs -/
+
+def set14 : List Nat := [126, 33, 36, 38, 39, 40, 41, 42, 43, 44, 59, 61, 58, 64]
+
+theorem set14_props {v : Nat} (h : set14.contains v = true) :
+    33 ≤ v ∧ v ≤ 126 ∧ v ≠ 37 ∧ v ≠ 47 ∧ v ≠ 35 ∧ v ≠ 63 ∧ isNameChar v = false := by
+  simp only [set14, List.contains_eq_mem, List.mem_cons, List.mem_nil_iff, or_false, decide_eq_true_eq] at h
+  rcases h with rfl | rfl | rfl | rfl | rfl | rfl | rfl | rfl | rfl | rfl | rfl | rfl | rfl | rfl <;> decide
+
+theorem nameChar_props {c : Nat} (h : isNameChar c = true) :
+    45 ≤ c ∧ c ≤ 122 ∧ c ≠ 47 ∧ c ≠ 58 ∧ c ≠ 63 ∧ c ≠ 64 ∧ c ≠ 91 ∧ set14.contains c = false := by
+  simp only [isNameChar, isAlnum, isDigit, isUpper, isLower, Bool.or_eq_true, Bool.and_eq_true, decide_eq_true_eq] at h
+  have hb : 45 ≤ c ∧ c ≤ 122 ∧ c ≠ 47 ∧ c ≠ 58 ∧ c ≠ 63 ∧ c ≠ 64 ∧ c ≠ 91 ∧ c ≠ 59 ∧ c ≠ 61 := by omega
+  refine ⟨hb.1, hb.2.1, hb.2.2.1, hb.2.2.2.1, hb.2.2.2.2.1, hb.2.2.2.2.2.1, hb.2.2.2.2.2.2.1, ?_⟩
+  simp only [set14, List.contains_eq_mem, List.mem_cons, List.mem_nil_iff, or_false, decide_eq_false_iff_not]
+  omega
+
+/-! percent escapes on strings without '%' -/
+theorem validEscapes_noPct : ∀ s : Bytes, (∀ c ∈ s, c ≠ 37) → validEscapes s = true := by
+  intro s
+  induction s using validEscapes.induct with
+  | case1 => intro _; simp [validEscapes]
+  | case2 a b rest ih => intro h; exact absurd rfl (h 37 (by simp))
+  | case3 t hn => intro h; exact absurd rfl (h 37 (by simp))
+  | case4 c rest h1 h2 ih =>
+    intro h
+    rw [validEscapes]
+    · exact ih (fun c hc => h c (by simp [hc]))
+    · exact h1
+    · exact h2
+
+theorem unescapeAll_noPct : ∀ s : Bytes, (∀ c ∈ s, c ≠ 37) → unescapeAll s = s := by
+  intro s
+  induction s using unescapeAll.induct with
+  | case1 => intro _; simp [unescapeAll]
+  | case2 a b rest ih => intro h; exact absurd rfl (h 37 (by simp))
+  | case3 c rest hne ih =>
+    intro h
+    rw [unescapeAll]
+    · rw [ih (fun c hc => h c (by simp [hc]))]
+    · exact hne
+
+theorem unescapeAll_append_noPct : ∀ (a b : Bytes), (∀ c ∈ a, c ≠ 37) → unescapeAll (a ++ b) = a ++ unescapeAll b
+  | [], b, _ => by simp
+  | x :: xs, b, h => by
+    have hx : x ≠ 37 := h x (by simp)
+    have ih := unescapeAll_append_noPct xs b (fun c hc => h c (by simp [hc]))
+    simp only [List.cons_append]
+    rw [unescapeAll]
+    · rw [ih]
+    · intros; simp_all
+
+theorem validEscapes_append_noPct : ∀ (a b : Bytes), (∀ c ∈ a, c ≠ 37) → validEscapes (a ++ b) = validEscapes b
+  | [], b, _ => by simp
+  | x :: xs, b, h => by
+    have hx : x ≠ 37 := h x (by simp)
+    have ih := validEscapes_append_noPct xs b (fun c hc => h c (by simp [hc]))
+    simp only [List.cons_append]
+    rw [validEscapes]
+    · exact ih
+    all_goals (intros; simp_all)
+
 end Nuts.C18
